@@ -146,7 +146,28 @@ func VH_C12_MergeMaps() {
 		}
 	}
 	vassert(n == cnt, "C12 Merge: no extra region")
+	// B itself is unchanged - also by what happens to A afterwards: the two lists share no map
+	vc12Detached(a, b, len(br), len(bs), "C12 Merge")
 	vreach("end")
+}
+
+// vc12Detached: a definition added to or removed from A after the merge does not show in B.
+func vc12Detached(a, b *Subtitles, nbr, nbs int, tag string) {
+	if a.Regions != nil {
+		a.Regions["added-later"] = &Region{ID: "added-later"}
+	}
+	if a.Styles != nil {
+		a.Styles["added-later"] = &Style{ID: "added-later"}
+	}
+	m := 0
+	for range b.Regions {
+		m++
+	}
+	k := 0
+	for range b.Styles {
+		k++
+	}
+	vassert(m == nbr && k == nbs, tag+": B unchanged by later changes to A's definitions")
 }
 
 // C12 Merge into a receiver built without the constructor (nil maps).
@@ -168,6 +189,14 @@ func VH_C12_MergeNoConstructor() {
 	a.Merge(b)
 	vassert(len(a.Items) == na+1, "C12 Merge(no constructor): cues merged")
 	vassert(a.Regions["x"] == b.Regions["x"] && a.Styles["y"] == b.Styles["y"], "C12 Merge(no constructor): definitions merged")
+	nbr, nbs := 0, 0
+	for range b.Regions {
+		nbr++
+	}
+	for range b.Styles {
+		nbs++
+	}
+	vc12Detached(a, b, nbr, nbs, "C12 Merge(no constructor)")
 	vreach("end")
 }
 
